@@ -822,8 +822,10 @@ func (i *interpreter) convS(tDst, tSrc types.Type, x sym) value {
 		panic(engineErrorf("convS: destination %s", tDst))
 	}
 	if bd.Kind() == types.String {
-		// string(rune) of a symbolic integer: enumerate
-		return conv(tDst, tSrc, i.concretize(x, "string(int) conversion"))
+		// string(rune) of a symbolic integer: encode with utf8.AppendRune
+		r := i.convS(types.Typ[types.Int32], tSrc, x)
+		buf := i.callByName(nil, "unicode/utf8", "AppendRune", []value{[]value(nil), r})
+		return bytesToStr(buf.([]value))
 	}
 	r := conv(tDst, tSrc, x.c)
 	srcF := isFloatVal(x.c)
@@ -1014,5 +1016,89 @@ func (i *interpreter) indexValue(elems []value, idx value, what string) value {
 	if v, ok := selectS(elems, s, k); ok {
 		return v
 	}
-	return elems[int(asInt64(i.concretize(s, what+" index")))]
+	return elems[i.classifyIndex(elems, s, k)]
+}
+
+// classifyIndex handles a symbolic index into a container of non-scalar
+// elements whose element is only read: instead of enumerating index values
+// it decides which class of identical elements the index selects (one
+// decision per class), and returns the concrete index.
+func (i *interpreter) classifyIndex(elems []value, s sym, k int) int {
+	type class struct {
+		key  interface{}
+		runs [][2]int
+	}
+	var classes []*class
+	byKey := map[interface{}]*class{}
+	for n, e := range elems {
+		key := identityKey(e, n)
+		c := byKey[key]
+		if c == nil {
+			c = &class{key: key}
+			byKey[key] = c
+			classes = append(classes, c)
+		}
+		if l := len(c.runs); l > 0 && c.runs[l-1][1] == n-1 {
+			c.runs[l-1][1] = n
+		} else {
+			c.runs = append(c.runs, [2]int{n, n})
+		}
+	}
+	if len(classes) > 64 {
+		return int(asInt64(i.concretize(s, "element index")))
+	}
+	it := s.t
+	for _, c := range classes {
+		var parts []*smt.Term
+		in := false
+		for _, r := range c.runs {
+			if k >= r[0] && k <= r[1] {
+				in = true
+			}
+			lo := smt.App("bvuge", smt.Bool, it, smt.Const(it.S, uint64(r[0])))
+			hi := smt.App("bvule", smt.Bool, it, smt.Const(it.S, uint64(r[1])))
+			if r[0] == r[1] {
+				parts = append(parts, smt.App("=", smt.Bool, it, smt.Const(it.S, uint64(r[0]))))
+			} else {
+				parts = append(parts, smt.And(lo, hi))
+			}
+		}
+		if i.decide(mkSym(in, smt.Or(parts...)), BrIf, "element class") {
+			return k
+		}
+	}
+	panic(engineErrorf("classifyIndex: index %d in no class", k))
+}
+
+// identityKey returns a comparable key such that two elements with the same
+// key are indistinguishable to code that only reads them.
+func identityKey(e value, n int) interface{} {
+	type sliceKey struct {
+		p        *value
+		len, cap int
+	}
+	type uniq struct{ n int }
+	switch e := e.(type) {
+	case []value:
+		if e == nil {
+			return "nil-slice"
+		}
+		if cap(e) == 0 {
+			return "empty-slice"
+		}
+		return sliceKey{&e[:1][0], len(e), cap(e)}
+	case *value:
+		return e
+	case string:
+		return "s:" + e
+	case bool, int, int8, int16, int32, int64, uint, uint8, uint16, uint32, uint64, uintptr, float32, float64:
+		return e
+	case iface:
+		if e.t == nil {
+			return "nil-iface"
+		}
+	case *smap:
+		return e
+	}
+	return uniq{n}
 }
